@@ -47,17 +47,55 @@ class Mod(treemodel.TreeMod):
                         return symstr.show(h[t][3])
         return ""
 
+    def intrinsic(self, I, callee, args, st, n):
+        if callee in ("deb822_lossless::lex::lex_inline", "deb822_lossless::lex::lex"):
+            import lexer
+            if self.lextab is None:
+                self.lextab = lexer.extract(self.facts)
+            v = I.deref_val(st, args[0])
+            p = symstr.pieces_of(v)
+            if p is None:
+                return [(OK, unk("lex"), st)]
+            toks = lexer.symlex(self.lextab, "lex_inline" if callee.endswith("inline") else "lex", p)
+            if toks is None:
+                return [(OK, unk("lex"), st)]
+            items = tuple(("tuple", (self.kval(k), symstr.mk(pcs))) for k, pcs in toks)
+            return [(OK, ("abs", "siter", items, 0), st)]
+        return super().intrinsic(I, callee, args, st, n)
+
+    lextab = None
+
     def apply_abs(self, I, fv, args, st, n):
+        if fv[1] == "fmt-identity":
+            return [(OK, I.deref_val(st, args[1]), st)]
         if fv[1] in ("cmp-entry", "cmp-para"):
             ka = self.first_key(I, st, args[0], "entry" if fv[1] == "cmp-entry" else "para")
             kb = self.first_key(I, st, args[1], "entry" if fv[1] == "cmp-entry" else "para")
             o = "Less" if ka < kb else ("Greater" if ka > kb else "Equal")
             return [(OK, ("enum", ORD + o, ()), st)]
         if fv[1] == "para-wrap":
-            ind, iel, mll, sort = fv[2]
-            a = [args[0], ind, ("bool", iel), mll, some(("abs", "cmp-entry")) if sort else none(), none()]
+            ind, iel, mll, sort = fv[2][:4]
+            fmt = fv[2][4] if len(fv[2]) > 4 else False
+            a = [args[0], ind, ("bool", iel), mll, some(("abs", "cmp-entry")) if sort else none(), some(("abs", "fmt-identity")) if fmt else none()]
             return I.inline(self.facts.fns[P + "Paragraph::wrap_and_sort"], a, st)
         return None
+
+
+_LEXTAB = {}
+
+
+def relex(F, flat):
+    """re-lex the printed text (concatenated token texts) with the extracted lexer table"""
+    import lexer
+    if "t" not in _LEXTAB:
+        _LEXTAB["t"] = lexer.extract(F)
+    pieces = ()
+    for k, t in flat:
+        pieces += symstr.pieces_of(t)
+    toks = lexer.symlex(_LEXTAB["t"], "lex", symstr.norm(pieces))
+    if toks is None:
+        return None
+    return [(k, symstr.mk(p)) for k, p in toks]
 
 
 def analyse(flat):
@@ -106,13 +144,18 @@ LAYOUTS = {
     "two paragraphs, comment between fields, multi-line value": [F_("B", ["b1", "b2"], indent="\t"), Cm("c1"), F_("A", ["a"], ws="  "), blank(), F_("Z", ["z"]), F_("Y", ["y1", "y2", "y3"])],
     "top comment, three paragraphs, extra blank lines": [Cm("top"), blank(), F_("P", ["p"]), blank(), blank(), F_("Q", ["q1", "q2"]), blank(), Cm("before-r"), F_("R", ["r"])],
     "duplicate names, no final newline": [F_("D", ["d1"]), F_("C", ["c"]), F_("D", ["d2"], final_newline=False)],
+    "single-line values only (one starts with ':')": [F_("M", ["m"]), Cm("about-b"), F_("B", [symstr.mk([("lit", ":"), ("atom", "b", "line")])]), blank(), F_("A", ["a"], ws="")],
+    "value starting on the next line, value starting with ':', comment before a field that sorting moves": [
+        {"type": "field", "key": "N", "lines": [A("n1")], "tokens": [("KEY", symstr.lit("N")), ("COLON", symstr.lit(":")), ("NEWLINE", symstr.lit("\n")), ("INDENT", symstr.lit(" ")), ("VALUE", A("n1")), ("NEWLINE", symstr.lit("\n"))]},
+        F_("M", ["m"]), Cm("about-b"), F_("B", [symstr.mk([("lit", ":"), ("atom", "b", "line")])])],
 }
 SETTINGS = []
 for ind in ("s1", "s4", "fnl"):
     for iel in (False, True):
         for mll in ("none", "some"):
             for sort in (False, True):
-                SETTINGS.append((ind, iel, mll, sort))
+                SETTINGS.append((ind, iel, mll, sort, False))
+SETTINGS += [("s1", False, "none", False, True), ("s4", True, "some", True, True)]   # identity value formatter (output is re-lexed)
 
 
 def ind_val(ind):
@@ -128,7 +171,9 @@ def run(tier):
               ["rustc HIR/typeck", "hirai", "rowan 0.16 model", "well-formed token grammar"])
     for fn in ("Deb822::wrap_and_sort", "Paragraph::wrap_and_sort", "Entry::wrap_and_sort", "rebuild_value"):
         C.ob("C07/anchor", P + fn, F.fn(P + fn) is not None, "not found")
-    settings = SETTINGS if tier == "thorough" else [s for i, s in enumerate(SETTINGS) if i % 2 == 0 or s[3]]
+    QUICK = [("s1", False, "none", False, False), ("s4", True, "some", True, False), ("fnl", False, "some", False, False), ("fnl", True, "none", True, False),
+             ("s1", True, "none", False, False), ("s4", False, "none", True, False), ("s1", False, "none", False, True), ("s4", True, "some", True, True)]
+    settings = SETTINGS if tier == "thorough" else QUICK
     n = 0
     for lname, records in LAYOUTS.items():
         toks = []
@@ -136,9 +181,16 @@ def run(tier):
             toks += r["tokens"]
         base_paras, base_comments, _, _, err0 = analyse(toks)
         assert err0 is None, err0
-        for (ind, iel, mll, sort) in settings:
+        def has_inner_newline(r):
+            ks = [k for k, t in r["tokens"]]
+            return "NEWLINE" in ks[:-1] if ks and ks[-1] == "NEWLINE" else "NEWLINE" in ks
+        multiline = any(r["type"] == "field" and has_inner_newline(r) for r in records)
+        agg = {}
+        for (ind, iel, mll, sort, fmt) in settings:
+            if fmt and multiline and lname != "two paragraphs, comment between fields, multi-line value":
+                continue     # the multi-line formatter defect is recorded once, on the first layout
             n += 1
-            label = "%s :: indentation=%s immediate_empty_line=%s one_liner=%s sort=%s" % (lname, ind, iel, mll, sort)
+            label = "%s :: indentation=%s immediate_empty_line=%s one_liner=%s sort=%s%s" % (lname, ind, iel, mll, sort, " formatter=identity" if fmt else "")
             pdoc, errs, st, pmod = db.parse_deb822(F, toks)
             if pdoc is None or errs != ("abs", "strvec", 0):
                 C.ob("C07/parse", label, False, "symbolic document does not parse cleanly")
@@ -148,7 +200,7 @@ def run(tier):
             I.max_recursion = 6
             s0 = hirai.State({}, dict(st.mon), 0).setroot(("T", "doc"), pdoc)
             mllv = none() if mll == "none" else some(hirai.mkint(30))
-            pw = some(("abs", "para-wrap", (ind_val(ind), iel, mllv, sort)))
+            pw = some(("abs", "para-wrap", (ind_val(ind), iel, mllv, sort, fmt)))
             args = [("ref", (("T", "doc"),)), some(("abs", "cmp-para")) if sort else none(), pw]
             f = F.fn(P + "Deb822::wrap_and_sort")
             try:
@@ -173,7 +225,11 @@ def run(tier):
                 flat = []
                 flatten(mod, h, root, flat)
                 text = db.text_of_tokens(flat)
-                paras, comments, indents, seps, err = analyse(flat)
+                re_toks = relex(F, flat)
+                if re_toks is None:
+                    C.ob("C07/parses-strictly", olabel, False, "the printed result %r cannot be re-lexed" % text, f["sp"])
+                    continue
+                paras, comments, indents, seps, err = analyse(re_toks)
                 C.ob("C07/parses-strictly", olabel, err is None, "the result prints %r: %s" % (text, err), f["sp"])
                 if err is not None:
                     continue
@@ -185,7 +241,10 @@ def run(tier):
                 C.ob("C07/one-blank-line", olabel, all(x == 1 for x in seps), "blank lines between paragraphs: %s (printed %r)" % (seps, text), f["sp"])
                 C.ob("C07/result-mutable", olabel, h[root][5], "the returned document is an immutable tree")
                 live = [[(k, [x.strip() for x in val.split("\n") if x.strip()]) for k, val in p] for p in live_paragraphs(F, mod, s, root, h) if p]
-                C.ob("C07/live-equals-reread", olabel, live == paras, "the returned object reports %s, its printed form re-reads as %s" % (live, paras), f["sp"])
+                if fmt and multiline:
+                    agg.setdefault("live", []).append((live == paras, "the returned object reports %s, its printed form re-reads as %s" % (live, paras)))
+                else:
+                    C.ob("C07/live-equals-reread", olabel, live == paras, "the returned object reports %s, its printed form re-reads as %s" % (live, paras), f["sp"])
                 # idempotence
                 I2 = hirai.Interp(F, mod, max_depth=18)
                 I2.max_recursion = 6
@@ -204,9 +263,15 @@ def run(tier):
                     flatten(mod, treemodel.heap_get(s2), v2[2][0][2], f2)
                     texts2.add(db.text_of_tokens(f2))
                 # with unknown lengths the second pass forks again; the same length decision must give the same text
-                C.ob("C07/idempotent", olabel, text in texts2 and all(len(t) > 0 or text == "" for t in texts2), "second application yields %s, first gave %r" % (sorted(texts2)[:3], text), f["sp"])
+                if fmt and multiline:
+                    agg.setdefault("idem", []).append((text in texts2, "second application yields %s, first gave %r" % (sorted(texts2)[:2], text)))
+                else:
+                    C.ob("C07/idempotent", olabel, text in texts2 and all(len(t) > 0 or text == "" for t in texts2), "second application yields %s, first gave %r" % (sorted(texts2)[:3], text), f["sp"])
                 if len(C.samples) < 6:
                     C.sample({"layout": lname, "settings": label.split(" :: ")[1], "before": db.text_of_tokens(toks), "after": text})
+        if agg:
+            bad = [d for k in ("live", "idem") for ok, d in agg.get(k, []) if not ok]
+            C.ob("C07/formatter-multiline-output", lname, not bad, "with a value formatter whose output has several lines: " + (bad[0] if bad else ""), F.fn(P + "Entry::wrap_and_sort")["sp"])
     C.floor("C07/runs", n, 30, "layout x settings combinations")
     C.assumptions += ["format_value (control-file formatter) path not covered here", "token text lengths are unknown: length-dependent layout decisions are explored both ways",
                       "bounded: 3 layouts x settings matrix; comparators depend on field names only"]
